@@ -26,13 +26,15 @@ ASSUMPTIONS = [
 COMPONENTS = {'real': ['yldprolog.engine fact store, builtins asserta/assertz/retract/retractall, clear, query', 'compiled wrapper clauses (real compiler output)'],
               'stub': ['consumer / scheduler of the retract generators'],
               'oracle': ['ordered-list model (ypsim.models.FactStore) compared op by op, full read-back after every op']}
-REQUIRED_PROBES = ('form_reused_goal_object', 'fault_retractall_overflow', 'fault_assert_overflow', 'deep_fact_stored', 'op_badgoal', 'bound_argument_readbacks', 'op_assert', 'op_retract', 'op_retractall', 'op_query', 'op_clear', 'route_fact', 'route_query', 'route_wrap', 'route_inline',
+REQUIRED_PROBES = ('clear_while_retract_suspended', 'form_reused_goal_object', 'fault_retractall_overflow', 'fault_assert_overflow', 'deep_fact_stored', 'op_badgoal', 'bound_argument_readbacks', 'op_assert', 'op_retract', 'op_retractall', 'op_query', 'op_clear', 'route_fact', 'route_query', 'route_wrap', 'route_inline',
                    'form_bound', 'retract_abandoned', 'retract_suspended_across_ops', 'op_on_predicate_without_facts', 'arity0_ops')
 
 KEYS = [('p', 0), ('p', 1), ('p', 2), ('q', 1), ('r', 3), ('flag', 0), ('findall', 1), ('atom', 1), ('zz', 1), ('yy', 0)]      # findall/1: a name shared with a builtin of another arity; atom/1: named like an engine helper
 ASSERTABLE = 8          # the last two keys never get facts
 VALS = [['a', 'a'], ['a', 'b'], ['a', 'c'], ['i', 1], ['i', 2], ['f', 'f', [['a', 'a']]], TM.J(TM.mklist([('a', 'a'), ('a', 'b')])),
-        ['a', '[]'], TM.J(TM.mklist([('a', 'a')])), ['a', 'x y'], ['a', ''], ['i', 0]]
+        ['a', '[]'], TM.J(TM.mklist([('a', 'a')])), ['a', 'x y'], ['a', ''], ['i', 0],
+        # plain Python strings are constants of their own: 'a' the string is not a the atom
+        ['s', 'a'], ['s', 'b'], ['f', 'f', [['s', 'a']]]]
 
 _WRAPPERS = None
 
@@ -77,7 +79,7 @@ def gen(seed, tier):
     p_bound = rng.choice((0.1, 0.3, 0.5))
     nkeys = rng.choice((2, 4, 10))
     keyset = rng.sample(range(len(KEYS)), nkeys)
-    small_vals = rng.choice((2, 3, 7, 12))
+    small_vals = rng.choice((2, 3, 7, 12, 15))
 
     p_reused = rng.choice((0.0, 0.0, 0.3, 0.6))
 
@@ -548,13 +550,14 @@ def execute(plan):
                     outcome = 'EXC'
                 log.ev('badgoal', bk, route, what, outcome)
             elif kind == 'clear':
-                if ex.task:
-                    log.ev('noop-busy')
-                    continue
                 log.count('cases'); log.count('op_clear')
                 yp.clear()
                 model.clear()
                 ex.load_wrappers()
+                if ex.task:
+                    # the suspended retract has nothing left to remove: every fact it could still reach is gone
+                    ex.task['todo'] = []
+                    log.count('clear_while_retract_suspended')
                 log.ev('clear')
         except TM.Cyclic:
             log.ev('skip-cyclic-pattern')
